@@ -75,6 +75,15 @@ def project_upgrade(label):
     return {"upgrading": v("upgrading") == "TRUE", "upgraded": v("upgraded") == "TRUE", "tr": "polling" if v("cur") == "p" else "stream",
             "nswitch": int(v("nswitch") or 0), "closed": {k: x in ("refused", "closed", "failed") for k, x in pc.items() if x != "none"}}
 
+# ---- HttpCtx.tla
+def project_httpctx(label):
+    def v(name):
+        m = re.search(r'/\\ ' + name + r' = ("?)([^ "/]*)\1', label)
+        return m.group(2) if m else ""
+    done, canc = v("done") == "TRUE", v("cancelled") == "TRUE"
+    return {"done": done, "nwh": int(v("nwh") or 0), "nclose": int(v("nclose") or 0), "refused": int(v("refused") or 0),
+            "settled": not (v("watch") == "waiting" and (done or canc))}
+
 def main():
     global project
     dot, out = sys.argv[1], sys.argv[2]
@@ -87,6 +96,9 @@ def main():
     if construct:
         project = project_construct
         registry = True          # (same label syntax: hist is one conjunct among others, nothing is skipped)
+    if len(sys.argv) > 5 and sys.argv[5] == "httpctx":
+        project = project_httpctx
+        registry = True
     if len(sys.argv) > 5 and sys.argv[5] == "upgrade":
         project = project_upgrade
         registry = True
@@ -116,8 +128,12 @@ def main():
     nodes = set(act)
     # not replayable: a second transport fault while the first close is parked INSIDE the transport's one-time listener
     # would wait on that listener's sync.Once (a sync.Mutex: the bubble cannot quiesce) - an artefact of parking there
+    httpctx = len(sys.argv) > 5 and sys.argv[5] == "httpctx"
     def stalls(a, b):
         x = act[b]
+        if httpctx:
+            # the watcher goroutine cannot be held: an operation taken while it has something to do is not replayable
+            return not proj[a]["settled"] and x is not None and x["a"] != "watch"
         if registry:
             return False
         return proj[a]["_inclose"] and x is not None and (x["a"] in ("poll.overlap", "poll.abort", "peerclose", "post.overlap", "post.abort")
